@@ -23,7 +23,7 @@ import (
 	"verif/refmodel"
 )
 
-const dir = "d1"
+const dir = "d"
 
 // thread programs
 type Prog struct {
@@ -36,7 +36,7 @@ func (p Prog) String() string {
 	switch p.K {
 	case "link":
 		return "link(" + p.N + ">" + p.M + ")"
-	case "list", "appendpre", "readpre":
+	case "list", "appendpre", "readpre", "list2", "appendp", "appendbig", "readp":
 		return p.K
 	}
 	return p.K + "(" + p.N + ")"
@@ -58,6 +58,7 @@ func (sc Scenario) ID() string {
 
 type in struct {
 	K        string
+	D        string // directory ("" = dir)
 	N, M     string
 	F        filesys.File
 	Data     string
@@ -119,6 +120,10 @@ func step(state, input, output interface{}) (bool, interface{}) {
 		return false, state
 	}
 	m := s.fs
+	dir := dir
+	if i.D != "" {
+		dir = i.D
+	}
 	switch i.K {
 	case "Create":
 		h, ok := m.Create(dir, i.N)
@@ -226,7 +231,7 @@ func body(sc Scenario, r *run) func() {
 			r.record(t, in{K: "ReadAt", F: f, Off: off, Len: l}, func() out { return out{Data: string(im.ReadAt(f, off, l))} })
 		}
 		_ = seq
-		// sequential prior state: f = "F0", optionally g = "G0"
+		// sequential prior state: f = "F0", optionally g = "G0"; d2/h = "H0"; p = "" with one append handle shared by its writers
 		o := create(-1, "f")
 		appendTo(-1, o.F, "F0")
 		closeF(-1, o.F)
@@ -234,6 +239,24 @@ func body(sc Scenario, r *run) func() {
 			o := create(-1, "g")
 			appendTo(-1, o.F, "G0")
 			closeF(-1, o.F)
+		}
+		var hp filesys.File
+		needD2, needP := false, false
+		for _, p := range sc.Threads {
+			switch p.K {
+			case "list2", "ac2":
+				needD2 = true
+			case "appendp", "appendbig", "readp":
+				needP = true
+			}
+		}
+		if needD2 {
+			o2 := r.record(-1, in{K: "Create", D: "d2", N: "h"}, func() out { f, ok := im.Create("d2", "h"); return out{Ok: ok, F: f} })
+			appendTo(-1, o2.F, "H0")
+			closeF(-1, o2.F)
+		}
+		if needP {
+			hp = create(-1, "p").F
 		}
 		// pre-opened handles
 		pre := make([]filesys.File, len(sc.Threads))
@@ -243,6 +266,8 @@ func body(sc Scenario, r *run) func() {
 				pre[t] = create(-1, fmt.Sprintf("p%d", t)).F
 			case "readpre":
 				pre[t] = open(-1, "f").F
+			case "readp":
+				pre[t] = open(-1, "p").F
 			}
 		}
 		var wg hpar.WaitGroup
@@ -278,6 +303,19 @@ func body(sc Scenario, r *run) func() {
 				case "readpre":
 					readAt(t, pre[t], 0, 64)
 					readAt(t, pre[t], 1, 1)
+				case "list2":
+					r.record(t, in{K: "List", D: "d2"}, func() out { return out{Names: strings.Join(im.List("d2"), ",")} })
+				case "ac2":
+					d := "b" + tag + strings.Repeat(tag, 6)
+					r.record(t, in{K: "AtomicCreate", D: "d2", N: p.N, Data: d}, func() out { im.AtomicCreate("d2", p.N, []byte(d)); return out{} })
+				case "appendp":
+					appendTo(t, hp, tag+"1")
+					appendTo(t, hp, tag+"2")
+				case "appendbig":
+					appendTo(t, hp, strings.Repeat(tag, 70000)) // above any plausible "large append" threshold
+				case "readp":
+					readAt(t, pre[t], 0, 1<<17)
+					readAt(t, pre[t], 0, 1<<17)
 				}
 			})
 		}
@@ -286,7 +324,14 @@ func body(sc Scenario, r *run) func() {
 		r.record(-1, in{K: "List"}, func() out { return out{Names: strings.Join(im.List(dir), ",")} })
 		for _, n := range im.List(dir) {
 			if o := open(-1, n); o.Panic == "" {
-				readAt(-1, o.F, 0, 1<<16)
+				readAt(-1, o.F, 0, 1<<17)
+				closeF(-1, o.F)
+			}
+		}
+		r.record(-1, in{K: "List", D: "d2"}, func() out { return out{Names: strings.Join(im.List("d2"), ",")} })
+		for _, n := range im.List("d2") {
+			if o := r.record(-1, in{K: "Open", D: "d2", N: n}, func() out { return out{F: im.Open("d2", n)} }); o.Panic == "" {
+				readAt(-1, o.F, 0, 1<<17)
 				closeF(-1, o.F)
 			}
 		}
@@ -324,7 +369,7 @@ func verdict(sc Scenario, r *run, s *csched.Sched) (kind, msg, outcome string) {
 	model := porcupine.Model{
 		Init: func() interface{} {
 			m := &mstate{fs: refmodel.NewFS(), files: map[filesys.File]int{}, weakList: weak}
-			m.fs.Mkdir("d1")
+			m.fs.Mkdir("d")
 			m.fs.Mkdir("d2")
 			return m
 		},
@@ -336,44 +381,57 @@ func verdict(sc Scenario, r *run, s *csched.Sched) (kind, msg, outcome string) {
 	}
 	if weak {
 		// DirFs List (documented as non-atomic): names must have existed at some point, names present throughout must be listed
-		ever := map[string]bool{"f": true}
-		always := map[string]bool{"f": true}
+		ever := map[string]map[string]bool{"d": {"f": true}, "d2": {}}
+		always := map[string]map[string]bool{"d": {"f": true}, "d2": {}}
 		if sc.PriorG {
-			ever["g"], always["g"] = true, true
+			ever["d"]["g"], always["d"]["g"] = true, true
 		}
 		for t, p := range sc.Threads {
 			switch p.K {
 			case "create", "ac":
-				ever[p.N] = true
+				ever["d"][p.N] = true
 			case "link":
-				ever[p.M] = true
+				ever["d"][p.M] = true
 			case "delete":
-				always[p.N] = false
+				always["d"][p.N] = false
 			case "appendpre":
 				n := fmt.Sprintf("p%d", t)
-				ever[n], always[n] = true, true
+				ever["d"][n], always["d"][n] = true, true
+			case "appendp", "appendbig", "readp":
+				ever["d"]["p"], always["d"]["p"] = true, true
+			}
+			switch p.K {
+			case "list2", "ac2":
+				ever["d2"]["h"], always["d2"]["h"] = true, true
+			}
+			if p.K == "ac2" {
+				ever["d2"][p.N] = true
 			}
 		}
 		for _, e := range h {
 			if e.In.K != "List" || e.Thread < 0 {
 				continue
 			}
+			d := "d"
+			if e.In.D != "" {
+				d = e.In.D
+			}
 			got := map[string]bool{}
 			for _, n := range strings.Split(e.Out.Names, ",") {
 				if n == "" {
 					continue
 				}
-				if !ever[n] {
-					return "list", fmt.Sprintf("List returned %q which never existed", n), outcome
+				if !ever[d][n] {
+					return "list", fmt.Sprintf("List(%s) returned %q which never existed there", d, n), outcome
 				}
 				if got[n] {
-					return "list", fmt.Sprintf("List returned %q twice", n), outcome
+					return "list", fmt.Sprintf("List(%s) returned %q twice", d, n), outcome
 				}
 				got[n] = true
 			}
-			for n, a := range always {
+			for n, a := range always[d] {
 				if a && !got[n] {
-					return "list", fmt.Sprintf("List omitted %q which existed throughout the call", n), outcome
+					return "list", fmt.Sprintf("List(%s) omitted %q which existed throughout the call", d, n), outcome
 				}
 			}
 		}
@@ -387,7 +445,7 @@ func histString(h []event) string {
 		if e.Thread < 0 && e.In.K != "List" && e.In.K != "ReadAt" {
 			continue
 		}
-		s = append(s, fmt.Sprintf("t%d %s(%s%s fd=%d)[%d,%d]=>{ok=%v fd=%d data=%q names=%s}", e.Thread, e.In.K, e.In.N, e.In.M, e.In.F, e.Call, e.Ret, e.Out.Ok, e.Out.F, e.Out.Data, e.Out.Names))
+		s = append(s, fmt.Sprintf("t%d %s(%s%s fd=%d)[%d,%d]=>{ok=%v fd=%d data=%q names=%s}", e.Thread, e.In.K, e.In.N, e.In.M, e.In.F, e.Call, e.Ret, e.Out.Ok, e.Out.F, fsh.Short([]byte(e.Out.Data)), e.Out.Names))
 	}
 	return strings.Join(s, "; ")
 }
@@ -403,6 +461,7 @@ func progs() []Prog {
 		{K: "ac", N: "f"}, {K: "ac", N: "g"},
 		{K: "list"},
 		{K: "appendpre"}, {K: "readpre"},
+		{K: "list2"}, {K: "ac2", N: "f"}, {K: "appendp"}, {K: "appendbig"}, {K: "readp"},
 	}
 }
 
@@ -429,7 +488,7 @@ func interesting(ths []Prog) bool {
 	// at least one mutating program
 	for _, p := range ths {
 		switch p.K {
-		case "create", "delete", "link", "ac", "appendpre", "open":
+		case "create", "delete", "link", "ac", "appendpre", "open", "ac2", "appendp", "appendbig", "list2":
 			// open allocates a descriptor: it mutates the descriptor table
 			return true
 		}
